@@ -18,12 +18,12 @@ CLAIMED = {
             'was taken. Covers every load/soil/pipe/fluid because each only selects one temperature table.', SEARCH_NOTE, '3/C01', None),
     'C02': ('Same runs: final height within [min,max]; count <= max_boreholes; Search failed only when the user did not ask to continue and no '
             'allowed candidate fits; continued runs return largest@max / smallest@min; any non-ValueError exception escaping is a violation '
-            '(found and fixed: RowWise TypeError).', SEARCH_NOTE, '3/C02', None),
+            '(found and fixed: RowWise TypeError); the cap also in the nested searches (capped bi-rectangle / bi-zoned units).', SEARCH_NOTE, '3/C02', None),
     'C03': ('For each concrete land rectangle (4 catalogue + 1 seeded lot quick; 17 + 12 thorough, both orientations, integer and non-integer '
             'side/spacing ratios) the solver partitions the whole range of spacing bounds into regions of constant row/column counts and shows '
             'on every region that all fields of the real generators stay on the land, have no coincident boreholes and keep b_min; near-square '
             'grids equal the n x n / n x (n+1) lattice at spacing b and the list is complete; lists are count-ordered; floor/ceil kernel '
-            'proved in the float relative-error model for counts 3..120 (400).',
+            'proved in the float relative-error model for counts 3..120 (400), and the row count bi_rectangular recovers from a re-derived spacing.',
             'land sides concrete (symbolic sides: z3 unknown, probed); spacing window assumed to admit an integer row count and three rows at '
             'the maximum spacing; floats as reals except the kernel lemma', '3/C03', None),
     'C04': ('Pattern B for each concrete polygon configuration (4 quick / 5 thorough: L-shape, rectangle with a no-go zone, two clockwise outlines, '
@@ -59,7 +59,8 @@ CLAIMED = {
     'C10': ('Structural clauses for all geometries (symbolic radii, conductivities, capacities; production 535-cell mesh and a second mesh): '
             'gap-free tiling from the fluid core to 10 m, fluid thermal mass, layer resistances summing to R_b*. Dynamic clauses by one '
             'inductive step from an arbitrary state on reduced meshes of 4 (quick) / 12 (thorough) concrete boreholes: energy stored = injected '
-            '- outflow (1e-6), T >= T_init preserved, monotone step, g formula; induction gives non-decreasing g, g_bhw >= 0, g >= -2 pi k R_b*.',
+            '- outflow (1e-6), T >= T_init preserved, monotone step, g formula; induction gives non-decreasing g, g_bhw >= 0, g >= -2 pi k R_b*; '
+            'time axis of the real loop (first three solves, the borehole\'s own period): label step = coefficient step.',
             'NOT claimed: 0.5 % agreement with a fine-mesh solution, finiteness in floats, resampling accuracy. dgtsv replaced by its contract; '
             'coefficients = the binary64 values computed, taken as exact rationals; dynamic clauses on 17/24-cell meshes only (34 cells: z3 '
             'unknown).', '3/C10', None),
@@ -102,7 +103,7 @@ CLAIMED = {
             'contract stub). sqrt with defining equation, ln uninterpreted with product rule, brentq as exact root.', '3/C15', None),
     'C16': ('For each concrete polygon (12 hand-made incl. the demo outline + 48 seeded lattice polygons quick; all 3-4 vertex lattice polygons '
             'thorough) the classification is proved for every real test point and tolerance against an independent crossing-number oracle '
-            'with the opposite half-open convention.',
+            'with the opposite half-open convention; polygons also given as closed rings (first vertex repeated) from different start vertices.',
             'sqrt abstracted (fresh non-negative real per term + per-edge detour lemma, slack 1e-12); polygon vertices concrete', '3/C16', None),
     'C17': ('For each geometry method (incl. RowWise with/without perimeter ratio) x pipe arrangement x option set, with every numeric field '
             'symbolic in its schema range: the written value tree satisfies every section schema and the load->write round trip reproduces '
@@ -122,7 +123,8 @@ CLAIMED = {
             'symbolic load position over 24 positions, thorough over all 8760.', '3/C19', None),
     'C20': ('For all flow rates, densities and borehole counts 1..400: per-borehole and system specifications give the same per-borehole '
             'mass flow in both search classes and in BaseGHE.__init__ (the value handed to the borehole model), = v rho/1000; m x N = '
-            'V rho/1000 for system flow; unknown flow type refused; (N v)/N in the float relative-error model.',
+            'V rho/1000 for system flow; unknown flow type refused; (N v)/N in the float relative-error model; flow value and type travel '
+            'unchanged from set_design through each of the six Design* classes to the search constructor.',
             'downstream resistance/temperatures equal by congruence (functions of the per-borehole mass flow only), not encoded; '
             'flow-type strings: 9 concrete spellings', '3/C20', None),
 }
